@@ -331,6 +331,8 @@ impl BuildJob<'_> {
             // than we started it in.  So os.getcwd() might be != REDO_PWD right
             // now.
             assert!(ps.is_flushed());
+            #[cfg(feature = "verif")]
+            crate::verif::point("job.child", &format!("{} script", lock.file_id()));
             let newp = match df.do_dir.canonicalize() {
                 Ok(newp) => newp,
                 Err(_) => return EXIT_FAILURE,
@@ -501,7 +503,11 @@ impl BuildJob<'_> {
         let state = ptx.commit().map_err(RedoError::opaque_error)?;
         #[cfg(feature = "verif")]
         crate::verif::point("job.oob", &format!("{}", self.lock.file_id()));
+        #[cfg(feature = "verif")]
+        let oob_fid = self.lock.file_id();
         let job = server.start(self.t.into_string(), || {
+            #[cfg(feature = "verif")]
+            crate::verif::point("job.child", &format!("{} oob", oob_fid));
             env::set_var(ENV_DEPTH, {
                 let mut depth = state.env().depth().to_string();
                 depth.push_str("  ");
@@ -714,9 +720,10 @@ where
     crate::verif::point(
         "run.begin",
         &format!(
-            "{} {}",
+            "{} {} {}",
             targets.len(),
-            std::env::var("REDO_TARGET").unwrap_or_default().replace(' ', "_")
+            std::env::var("REDO_TARGET").unwrap_or_default().replace(' ', "_"),
+            std::os::unix::process::parent_id()
         ),
     );
     let mut target_order = Vec::from_iter(0..targets.len());
